@@ -7,6 +7,11 @@ import sys
 
 json.load(sys.stdin)
 here = os.path.dirname(os.path.abspath(__file__))
+# (the C04 tracer - see below - runs concurrently)
+p4 = subprocess.Popen([sys.executable, '-B', os.path.join(here, 'c04_trace_impl.py')], stdin=subprocess.PIPE,
+                      stdout=subprocess.PIPE, stderr=subprocess.PIPE, text=True, env=os.environ)
+p4.stdin.write(json.dumps({}))
+p4.stdin.close()
 p = subprocess.run([sys.executable, '-B', os.path.join(here, 'c07_impl.py')], input=json.dumps({'programs_only': True}),
                    capture_output=True, text=True, timeout=300, env=os.environ)
 if p.returncode != 0:
@@ -30,4 +35,33 @@ for name, v in out['programs'].items():
 if 'commit' not in out['programs'] or len(names) < 4:
     raise SystemExit('fail-closed: commit program or handler programs missing')
 lines.append(f'Definition handler_programs : list (list act) := [{"; ".join(names)}].')
+# ---- C04 (additive): the commit program of EVERY transaction kind and the periodic collector, traced by c04_trace_impl.py
+try:
+    p4_out, p4_err = p4.stdout.read(), p4.stderr.read()
+    p4.wait(timeout=300)
+except subprocess.TimeoutExpired:
+    p4.kill()
+    raise SystemExit('fail-closed: tracing the commits of every kind / the periodic collector timed out')
+if p4.returncode != 0:
+    raise SystemExit('fail-closed: tracing the commits of every kind / the periodic collector failed: ' + p4_err[-800:])
+out4 = json.loads(p4_out.strip().splitlines()[-1])
+if 'error' in out4:
+    raise SystemExit('fail-closed: ' + out4['error'])
+lines.append('(* commit programs of every transaction kind and one iteration of the periodic collector per period')
+lines.append('   (PeriodicReportsHandler._periodic_reports_send_loop; ReadVersion = the read that labels the PeriodicStates),')
+lines.append('   traced by harness/impl/c04_trace_impl.py *)')
+commit_names, periodic_names = [], []
+for name, prog in out4['programs'].items():
+    bad = [e for e in prog if e not in KNOWN]
+    if bad:
+        raise SystemExit(f'fail-closed: unknown event(s) {bad} in the trace of {name}')
+    ident = 'prog_' + ''.join(c if c.isalnum() else '_' for c in name)
+    lines.append(f'Definition {ident} : list act := [{"; ".join(prog)}].')
+    (commit_names if name.startswith('commit_') else periodic_names).append(ident)
+    out['programs'][name] = {'program': prog, 'not_in_program': out4.get('not_in_program', {}).get(name)}
+need = {'prog_commit_' + k for k in ('metric', 'alert', 'component', 'operational', 'context', 'rt_sample', 'descriptor')}
+if not need <= set(commit_names) or not periodic_names:
+    raise SystemExit(f'fail-closed: commit program of a transaction kind or the periodic collector missing ({commit_names}, {periodic_names})')
+lines.append(f'Definition commit_programs : list (list act) := [{"; ".join(commit_names)}].')
+lines.append(f'Definition periodic_programs : list (list act) := [{"; ".join(periodic_names)}].')
 print(json.dumps({'rel': 'Conc/Gen_Programs.v', 'text': '\n'.join(lines) + '\n', 'programs': out['programs']}))
